@@ -473,6 +473,7 @@ def run(ctx):
                 "ignoring-peer runs")
     ctx.trust("packet sizes are measured on the packetizer's socket and handed to the model as numbers",
               "end-to-end runs use tests._loop.LoopSocket as the network")
+    L.write_generated_c11(ctx)          # AST facts about the send gate (clear_to_send / clear_to_send_lock)
     ctx.build(extra_modules=["Driver.C10"])
 
     n = 6000 if ctx.thorough else 1500
@@ -573,6 +574,22 @@ def run(ctx):
             f = rp_.split(" ")
             if [int(f[0]), int(f[1])] != [io, ii]:
                 ctx.disagree("compressor installs per key switch", dict(case, request=rq), [int(f[0]), int(f[1])], [io, ii])
+    # a re-exchange we start ourselves must wait for an application packet that has already passed the send gate
+    for role in ("server", "client"):
+        o = L.parked_sender_vs_self_rekey(role)
+        ctx.case(("parked-sender", role), True)
+        ctx.dist("parked-sender:" + role)
+        ctx.sample(o, limit=12)
+        offending = [t for t in o["window"] if t >= 50]
+        if offending:
+            ctx.fail("application-data-inside-own-kex-window:sender-parked-before-write", o,
+                     "types %r written between our KEXINIT and our NEWKEYS; peer: %s" % (offending, o["peer_exc"]))
+        elif not o["completed"] or o["user_exc"] != "-":
+            ctx.fail("session-lost-in-self-initiated-rekey:sender-parked-before-write", o,
+                     "subject %s peer %s user %s" % (o["sub_exc"], o["peer_exc"], o["user_exc"]))
+        elif not o["delivered"]:
+            ctx.fail("traffic-lost-across-rekey:sender-parked-before-write", o, "the parked packet did not arrive")
+
     for by in ("packets", "bytes", "replies"):
         ctx.case(("e2e-ignoring", by), True)
         ignoring_peer_case(ctx, rng, by)
